@@ -126,8 +126,12 @@ _c04c = dict(functions=["ProguardCache::remap_method", "ProguardCache::get_class
              stubs=["cache::extract_class_name -> constant (no entry has a file)"], bound="<=3 entries + 1 neighbour method, 1 class", vars="all line numbers (writer invariant), frame line")
 for _n in ["f", "ff", "fg", "fff", "ffg", "gff"]:
     H("C04", "cache_mod", "c04_cache_" + _n, what="cache: remap_method iff all entries agree (original names " + _n + "), frames agree and do not leak into the neighbour method", **_c04c)
-H("C04", "cache_mod", "c04_cache_class_lookup_exact", what="cache class lookup (binary search) is exact for every query <=2 bytes over {a,b,$,.,A,0,m} against classes a, a$, a., b",
-  vars="2 query bytes, query length", bound="4 classes, queries <=2 bytes", functions=["ProguardCache::get_class", "ProguardCache::remap_class", "ProguardCache::remap_throwable"], stubs=[])
+for _q in (1, 2):
+    H("C04", "cache_mod", "c04_cache_class_lookup_2classes_q%d" % _q, what="cache class lookup exact for every %d-byte query, classes a, a$" % _q, vars="%d query bytes" % _q,
+      bound="2 classes", functions=["ProguardCache::get_class", "ProguardCache::remap_class", "ProguardCache::remap_throwable"], stubs=[])
+for _q, _t in [(1, "thorough"), (2, "thorough"), (3, "thorough")]:
+    H("C04", "cache_mod", "c04_cache_class_lookup_q%d" % _q, tier=_t, timeout=900, what="cache class lookup (binary search) is exact for every %d-byte query over {a,b,$,.,A,0,m} against classes a, a$, a., b" % _q,
+      vars="%d query bytes" % _q, bound="4 classes, %d-byte queries" % _q, functions=["ProguardCache::get_class", "ProguardCache::remap_class", "ProguardCache::remap_throwable"], stubs=[])
 H("C04", "cache_mod", "c04_cache_find_range", what="find_range_by_binary_search returns exactly the maximal Equal run for every sorted comparison table", vars="slice length <=5, run bounds lo<=hi", bound="<=5 members",
   functions=["ProguardCache::find_range_by_binary_search"], stubs=[])
 
